@@ -9,7 +9,7 @@ def prop(pid, **kw):
     kw.setdefault('level', 'other'); kw.setdefault('assumptions', COMMON_ASSUME); kw.setdefault('floors', {})
     PROPS[pid] = kw
 
-prop('C01', rules=['C01.mask', 'rows', 'regions', 'defer_plan'], take=['C01.mask', 'C01.once', 'C01.levels', 'C05.cell'],
+prop('C01', rules=['C01.mask', 'rows', 'regions', 'defer_plan', 'visitset'], take=['C01.mask', 'C01.once', 'C01.levels', 'C05.cell', 'C03.visit-set'],
      floors={'mask-sites:back': 1, 'mask-sites:back11': 1, 'mask-sites:backmp11': 1},
      explanation='Static rules over the type-checked instantiations of the dispatch code: C01.mask (no equality test on the handled enumerator of a result code).')
 prop('C12', rules=['C12.assign', 'catch', 'flag'], take=['C12.assign', 'C12.catch', 'C04.flag-exc', 'C04.flag-exit', 'C04.flag'],
@@ -35,7 +35,7 @@ prop('C02', rules=['rows', 'cascade', 'kind'], take=['C02.order', 'C02.internal'
      explanation=ROWS_EXPL + ' C02.order: on every taken path guard? < switch < exit < switch < action? < switch < entry < switch, each exactly once; C02.internal: internal executors run guard and action only. C02.cascade: composite exit = substates in ascending region order (recursion to region+1 after the region\'s own exit; backmp11 visit of the active ids), own on_exit, history; composite entry mirrors it. C02.kind: the plain on_entry / on_exit of a state is never invoked on a receiver whose static type is a back-end machine.')
 prop('C19', rules=['rows'], take=['C19.slots'], floors=FLOOR_EXT,
      explanation=ROWS_EXPL + ' C19.slots: the four writes of the active-state id use after_guard, after_exit, after_action, after_entry in this order, interleaved with the behaviours.')
-prop('C09', rules=['rows', 'cascade'], take=['C09.exit-active', 'C09.entry'], floors={'exit-source-exec:back': 1, 'exit-source-exec:back11': 1, 'exit-source-exec:backmp11': 1},
+prop('C09', rules=['rows', 'cascade', 'history', 'bounds'], take=['C09.exit-active', 'C09.entry', 'C08.event', 'C03.bounds'], floors={'exit-source-exec:back': 1, 'exit-source-exec:back11': 1, 'exit-source-exec:backmp11': 1},
      explanation=ROWS_EXPL + ' C09.exit-active: an executor whose source is an exit pseudostate has a path returning HANDLED_FALSE before the guard, decided by a test that depends on the owner submachine\'s active-state array.')
 
 prop('C04', rules=['queues', 'flag', 'poolchain', 'drain'], take=['C04.queue-ops', 'C04.dequeue', 'C04.erase', 'C04.target', 'C04.flag', 'C04.flag-exc', 'C04.flag-drain', 'C04.flag-exit', 'C04.flag-test', 'C10.first'],
@@ -59,14 +59,16 @@ prop('C06', rules=['regions', 'rows', 'C01.mask', 'wiring'], take=['C06.regions'
 prop('C07', rules=['rows', 'cascade', 'kind', 'wiring', 'C01.mask'], take=['C07.forward-exec', 'C02.cascade', 'C02.kind', 'C07.wiring', 'C01.mask'],
      floors={'forward-exec:back:frow': 1, 'forward-exec:back11:frow': 1, 'forward-exec:backmp11:forward_transition': 1, 'wiring:back': 1, 'wiring:back11': 1, **FLOOR_CASC},
      explanation='Hierarchy: forwarding executors dispatch to their own submachine object exactly once and run no behaviour (C07.forward-exec); a consumed inner event stops outer candidates (C01.mask: bit tests only); cascaded exit / entry order and composite dispatch (C02.cascade, C02.kind); substates are wired to their container last in every constructor so that containment marks and exit-point forwarders are not overwritten (C07.wiring).')
-prop('C03', rules=['cascade'], take=['C03.start-stop', 'C03.region-index'],
-     floors={'start:back': 1, 'start:back11': 1, 'start:backmp11': 1, 'stop:backmp11': 1},
+prop('C03', rules=['cascade', 'bounds', 'visitset'], take=['C03.start-stop', 'C03.region-index', 'C03.bounds', 'C03.visit-set'],
+     floors={'start:back': 1, 'start:back11': 1, 'start:backmp11': 1, 'stop:backmp11': 1, 'visit-set-with-submachines:1-pred': 1, 'visit-set-with-submachines:2-pred': 1, 'active-range:back': 1, 'active-range:back11': 1},
      explanation='start() rewrites the active ids from the initial states before any entry, then machine entry, initial entries, completion, queue; stop() reaches the composite exit cascade exactly once (backmp11: guarded by the running mark, which is cleared after the cascade); every region helper indexes the active-state array with its own region constant.')
-prop('C08', rules=['cascade'], take=['C08.sites'], floors={'composite-entry:back': 1, 'composite-entry:back11': 1, 'composite-entry:backmp11': 1, 'history-entry:backmp11': 1},
-     explanation='History call sites: composite entry applies the history policy to all regions before explicit overrides and before any entry; backmp11 history entry first sets all active ids, then runs exactly those entries.')
+prop('C08', rules=['cascade', 'history'], take=['C08.sites', 'C08.table', 'C08.event', 'C08.private'], floors={'composite-entry:back': 1, 'composite-entry:back11': 1, 'composite-entry:backmp11': 1, 'history-entry:backmp11': 1,
+     'history-impl:NoHistoryImpl::history_entry': 1, 'history-impl:AlwaysHistoryImpl::history_entry': 1, 'history-impl:ShallowHistoryImpl::history_entry': 1, 'history-impl:ShallowHistoryImpl::history_exit': 1, 'history-impl:ShallowHistoryImpl::set_initial_states': 1,
+     'history-impl:mp11:no:on_entry': 1, 'history-impl:mp11:always:on_entry': 1, 'history-impl:mp11:shallow:on_entry': 1, 'history-impl:mp11:shallow:on_exit': 1, 'history-cell:mp11': 1, 'history-member:back': 1, 'history-member:back11': 1, 'history-member:backmp11': 1},
+     explanation='History call sites: composite entry applies the history policy to all regions before explicit overrides and before any entry; backmp11 history entry first sets all active ids, then runs exactly those entries. C08.table: per policy implementation the exit stores every region (element-wise loops cover 0..N-1), the entry yields stored / initial ids per policy with the shallow test being membership of the entering event type in the configured list (oracle recomputed from the template arguments), the memory is initialised from the initial states. C08.event: the history entry is never instantiated with the direct-entry wrapper, a reference or cv-qualified event type. C08.private: the memory is a by-value member of the machine.')
 prop('C10', rules=['cascade', 'drain', 'flag', 'queues'], take=['C10.first', 'C04.flag-drain', 'C04.queue-ops'], floors={'internal-start:back': 1, 'internal-start:back11': 1, 'entry-visitor:backmp11': 1, 'post-step:back': 1, 'post-step:back11': 1, 'post-step:backmp11': 1, 'queue-op:backmp11:POOL:push_front': 1},
      explanation='Completion first: internal_start dispatches the completion event right after the substate entries; backmp11 every state entry is followed by on_state_entry_completed (which inserts the completion occurrence at the front of the pool, see C04.queue-ops).')
-prop('C05', rules=['queues', 'cascade', 'seqtype', 'defer_plan'], take=['C04.queue-ops', 'C04.dequeue', 'C04.erase', 'C04.target', 'C05.clear', 'C05.seq-type', 'C05.cell'],
+prop('C05', rules=['queues', 'cascade', 'seqtype', 'defer_plan', 'visitset'], take=['C04.queue-ops', 'C04.dequeue', 'C04.erase', 'C04.target', 'C05.clear', 'C05.seq-type', 'C05.cell', 'C03.visit-set'],
      floors={'queue-op:back:DEFQ:push_back': 1, 'queue-op:back11:DEFQ:push_back': 1, 'queue-op:back:DEFQ:pop_front': 1, 'queue-op:back11:DEFQ:pop_front': 1,
              'queue-op:back:DEFQ:stable_sort': 1, 'queue-op:back11:DEFQ:stable_sort': 1, 'queue-op:backmp11:POOL:push_back': 1, 'queue-op:backmp11:POOL:erase': 1,
              'seq-compare:back': 1, 'seq-compare:back11': 1, 'seq-compare:backmp11': 1, 'deferral-check:backmp11-frs': 1},
